@@ -1,44 +1,58 @@
 (* Props/C10.v -- property C10: renumbering objects preserves the document graph.
-   Statements only; proofs live in Proofs/RenumberProofs{Map,Trav,,Dense,Page,Iter,Top,Main}.v.
+   Statements only; proofs live in Proofs/RenumberProofs{Map,Trav,TravO,,Dense,Page,Iter,Top,Main,Merge}.v.
 
-   Vocabulary (Spec/RenumberSpec.v, written from the property text):
-     rename rho o      the object o with every reference id replaced by its image under rho
+   Vocabulary (Spec/RenumberSpec.v, written from the property text and ISO 32000-1 7.3.10):
+     rename_o a o      the object o with every reference id replaced by its image under a; a reference WITHOUT an
+                       image is written as the null object
+     live m rho id     Some (rho id) when id names an object of m, None otherwise
+     denote m o        what the value o denotes in m: a reference denotes the object it names, or the null object
+                       (7.3.10: a reference to an undefined object is a reference to the null object)
+     live_or m rho np  the same for bookmark targets (ids, not objects): rho p when p names an object, else np
      reach tr m id     id is the target of a reference reachable from the trailer (whether or not it names an object)
-     used d id         id names an object, or is reachable, or is a bookmark target
      sorted_keys m     representation invariant of BTreeMap (keys strictly increasing); every decoded document has it
      fits start d      start + n <= 2^32: the numbers start .. start+n-1 exist in u32
-     KnownClass        open finding C10/dangling-in-range, decided on the input: some reachable reference or bookmark
-                       target names no object and its NUMBER lies in [start, start+n) *)
-From LV Require Import Base.Bytes Model.Obj Model.DocQ Model.PageTree Model.Traverse Model.Renumber Model.RenumberV0
-  Spec.RenumberSpec Proofs.RenumberProofsTrav Proofs.RenumberProofsDense Proofs.RenumberProofsTop Proofs.RenumberProofsMain.
+     KnownClass        the class of the FIXED finding C10/dangling-in-range: some reachable reference or bookmark
+                       target names no object and its NUMBER lies in [start, start+n).  No theorem about the current
+                       code carries it as a hypothesis; it delimits where the code before the repair failed. *)
+From LV Require Import Base.Bytes Model.Obj Model.DocQ Model.PageTree Model.Traverse Model.Renumber Model.RenumberV0 Model.RenumberV1
+  Spec.RenumberSpec Proofs.RenumberProofsTrav Proofs.RenumberProofsTravO Proofs.RenumberProofsDense Proofs.RenumberProofsTop
+  Proofs.RenumberProofsMain.
 
-(* (1) Outside the known class, renumbering from ANY start value that fits terminates normally and changes
-   identifiers only: there is a renaming rho, one-to-one on the ids the document uses and onto the ids the
-   new document uses, under which the trailer, every reachable object and every bookmark target are the
-   originals with references renamed; an object that is used but unreachable (only a bookmark points to
-   it) is moved unchanged.  Hence (conjuncts 12-14) every reachable reference resolves to the same content,
-   a reference or bookmark target that resolved to nothing still resolves to nothing, and page order is
-   unchanged.  Both passes (page-order pass, dense pass) are covered. *)
+(* (1) Renumbering from ANY start value that fits terminates normally and changes identifiers only -- for EVERY
+   document (no hypothesis on dangling references any more): there is a renaming rho, one-to-one on the ids
+   that name objects and onto the ids that name objects afterwards, under which the trailer and every
+   reachable object are the originals with references renamed, where a reference that names no object is
+   written as what it denotes, the null object (conjuncts 3-4); an object that is not reachable (only a
+   bookmark points to it) is moved unchanged (5); every bookmark target that names an object is renamed by
+   rho, one that names no object becomes the "no page" id np, whose number is 0 and which names no object
+   afterwards (6-8, 16).  Hence: the reachable ids afterwards are exactly the images of the reachable ids that
+   name objects and no reachable reference is dangling (11-12); every reference that resolved to an object
+   resolves to the same content (13); a reference that resolved to nothing denoted the null object and IS the
+   null object afterwards (14) -- in one statement, what a reachable reference denotes afterwards is what it
+   denoted before, renamed (15); page order is unchanged (17).  Both passes are covered. *)
 Theorem C10_renumber_iso :
   forall start d,
-    sorted_keys (d_objects (base d)) -> fits start d -> KnownClass start d = false ->
+    sorted_keys (d_objects (base d)) -> fits start d ->
     exists d' rho,
       renumber_objects_with start d = Done d' /\
-      inj_on (used d) rho /\
-      (forall x, used d' x <-> exists id, used d id /\ x = rho id) /\
-      d_trailer (base d') = rename_dict rho (d_trailer (base d)) /\
-      (forall id, reach (d_trailer (base d)) (d_objects (base d)) id ->
-                  lookup (d_objects (base d')) (rho id) = option_map (rename rho) (lookup (d_objects (base d)) id)) /\
-      (forall id, used d id -> ~ reach (d_trailer (base d)) (d_objects (base d)) id ->
-                  lookup (d_objects (base d')) (rho id) = lookup (d_objects (base d)) id) /\
-      bm_table d' = renumber_bookmarks_with rho (bm_table d) /\
+      let m := d_objects (base d) in let tr := d_trailer (base d) in
+      let m' := d_objects (base d') in let tr' := d_trailer (base d') in
+      let a := live m rho in
+      let np := no_page start (map fst m) in
+      inj_on (has_obj m) rho /\
+      (forall x, has_obj m' x <-> exists id, has_obj m id /\ x = rho id) /\
+      tr' = rename_dict_o a tr /\
+      (forall id, reach tr m id -> has_obj m id -> lookup m' (rho id) = option_map (rename_o a) (lookup m id)) /\
+      (forall id, has_obj m id -> ~ reach tr m id -> lookup m' (rho id) = lookup m id) /\
+      bm_table d' = renumber_bookmarks_with (live_or m rho np) (bm_table d) /\
+      ~ has_obj m' np /\ fst np = 0%N /\
       bookmarks d' = bookmarks d /\ max_bookmark_id d' = max_bookmark_id d /\
-      (forall x, reach (d_trailer (base d')) (d_objects (base d')) x <->
-                 exists id, reach (d_trailer (base d)) (d_objects (base d)) id /\ x = rho id) /\
-      (forall x, has_obj (d_objects (base d')) x <-> exists id, has_obj (d_objects (base d)) id /\ x = rho id) /\
-      (forall id o, reach (d_trailer (base d)) (d_objects (base d)) id -> lookup (d_objects (base d)) id = Some o ->
-                    lookup (d_objects (base d')) (rho id) = Some (rename rho o)) /\
-      (forall id, used d id -> lookup (d_objects (base d)) id = None -> lookup (d_objects (base d')) (rho id) = None) /\
+      (forall x, reach tr' m' x <-> exists id, reach tr m id /\ has_obj m id /\ x = rho id) /\
+      closed tr' m' /\
+      (forall id o, reach tr m id -> lookup m id = Some o -> lookup m' (rho id) = Some (rename_o a o)) /\
+      (forall id, lookup m id = None -> rename_o a (ref_obj id) = ONull) /\
+      (forall id, reach tr m id -> denote m' (rename_o a (ref_obj id)) = rename_o a (denote m (ref_obj id))) /\
+      (forall id, In id (bm_targets d) -> lookup m id = None -> In np (bm_targets d') /\ lookup m' np = None) /\
       page_iter (base d') = map rho (page_iter (base d)) /\
       d_version (base d') = d_version (base d) /\ d_binary_mark (base d') = d_binary_mark (base d).
 Proof. exact renumber_iso. Qed.
@@ -48,7 +62,7 @@ Proof. exact renumber_iso. Qed.
    would be assigned (0 for start 0). *)
 Theorem C10_renumber_dense :
   forall start d,
-    sorted_keys (d_objects (base d)) -> fits start d -> KnownClass start d = false ->
+    sorted_keys (d_objects (base d)) -> fits start d ->
     exists d',
       renumber_objects_with start d = Done d' /\
       length (d_objects (base d')) = length (d_objects (base d)) /\
@@ -58,7 +72,7 @@ Theorem C10_renumber_dense :
       (d_objects (base d) <> [] -> d_max_id (base d') = last (map fst (map fst (d_objects (base d')))) 0%N) /\
       (d_objects (base d) <> [] -> d_max_id (base d') = (start + N.of_nat (length (d_objects (base d))) - 1)%N) /\
       (d_objects (base d) = [] -> d_max_id (base d') = if (start =? 0)%N then 0%N else (start - 1)%N).
-Proof. exact renumber_dense. Qed.
+Proof. exact renumber_dense_all. Qed.
 
 (* (3) "from 1": renumber_objects() is the start = 1 instance, and it fits unless there are 2^32 objects *)
 Theorem C10_renumber_objects :
@@ -74,8 +88,8 @@ Theorem C10_fits_necessary :
     renumber_objects_with start d = Panic.
 Proof. exact renumber_panics. Qed.
 
-(* (5) The known class, in words; closed documents (every reachable reference and bookmark target names an
-   object) are outside it for every start value. *)
+(* (5) The class of the fixed finding, in words; closed documents (every reachable reference and bookmark target
+   names an object) are outside it for every start value. *)
 Theorem C10_KnownClass_spec :
   forall start d,
     KnownClass start d = true <->
@@ -90,11 +104,12 @@ Theorem C10_closed_outside_class :
     KnownClass start d = false.
 Proof. exact closed_not_known. Qed.
 
-(* (6) KnownClass_witness: the property FAILS inside the class (open finding C10/dangling-in-range).  Objects
-   {1,2,3,4,9}, the catalog holds the dangling `5 0 R`: renumbering leaves it as `5 0 R`, and number 5 is
-   given to old object 9, so a reference that resolved to nothing now resolves to an object. *)
-Theorem C10_KnownClass_witness :
-  exists d', renumber_objects_with 1 ex_dangling = Done d' /\
+(* (6) The property was REFUTED on the code before the repair of C10/dangling-in-range (model RenumberV1 = the text
+   Model/Renumber.v had, validated against that crate by rounds 1-2).  Objects {1,2,3,4,9}, the catalog holds the
+   dangling `5 0 R`: the old code leaves it as `5 0 R`, and number 5 is given to old object 9, so a reference that
+   resolved to nothing resolves to an unrelated object. *)
+Theorem C10_dangling_v1_refuted :
+  exists d', renumber_objects_with_v1 1 ex_dangling = Done d' /\
     KnownClass 1 ex_dangling = true /\
     reach (d_trailer (base ex_dangling)) (d_objects (base ex_dangling)) (5, 0)%N /\
     lookup (d_objects (base ex_dangling)) (5, 0)%N = None /\
@@ -103,6 +118,27 @@ Theorem C10_KnownClass_witness :
     lookup (d_objects (base d')) (5, 0)%N = lookup (d_objects (base ex_dangling)) (9, 0)%N /\
     lookup (d_objects (base d')) (5, 0)%N <> None.
 Proof. exact dangling_refuted. Qed.
+
+(* (6a) the same input on the repaired code: the reference is the null object afterwards *)
+Theorem C10_dangling_repaired :
+  exists d', renumber_objects_with 1 ex_dangling = Done d' /\
+    holds_ref (d_objects (base d')) (1, 0)%N (bs "Gone") = Some ONull /\
+    lookup (d_objects (base d')) (5, 0)%N = lookup (d_objects (base ex_dangling)) (9, 0)%N /\
+    d_trailer (base d') = [(K_Root, ORef 1 0); (bs "Nine", ORef 5 0)]%N.
+Proof. exact dangling_repaired. Qed.
+
+(* (6b) bookmark targets: start 0, bookmarks with the pages (0,0) and (2,0) that name no object: the old code leaves
+   (0,0), which then names the object numbered 0; the repaired code writes the "no page" id, here (0,1) because the
+   object numbered 0 has generation 0 *)
+Theorem C10_dangling_bookmark_v1_refuted :
+  exists d0 d1, renumber_objects_with_v1 0 ex_bm0 = Done d0 /\ renumber_objects_with 0 ex_bm0 = Done d1 /\
+    map (fun kb => bm_page (snd kb)) (bm_table ex_bm0) = [(0,0); (7,0); (2,0)]%N /\
+    lookup (d_objects (base ex_bm0)) (0,0)%N = None /\
+    map (fun kb => bm_page (snd kb)) (bm_table d0) = [(0,0); (1,0); (2,0)]%N /\
+    lookup (d_objects (base d0)) (0,0)%N <> None /\
+    map (fun kb => bm_page (snd kb)) (bm_table d1) = [(0,1); (1,0); (0,1)]%N /\
+    lookup (d_objects (base d1)) (0,1)%N = None.
+Proof. exact dangling_bookmark_refuted. Qed.
 
 (* (7) The mechanism named in the anchors: traverse_objects terminates within trav_fuel (the out-of-fuel value
    is never produced), visits exactly the ids reachable along renamed references, each once, and applies
@@ -119,18 +155,33 @@ Theorem C10_traverse_once :
       (forall x, ~ reachf f tr m x -> lookup m' x = lookup m x).
 Proof. exact traverse_spec. Qed.
 
+(* (7a) the same for the action of the dense pass, which may overwrite a reference with the null object ([f] gives
+   [None]): such a reference is not recorded and not followed *)
+Theorem C10_traverse_once_o :
+  forall f tr m fuel,
+    trav_fuel tr m <= fuel ->
+    exists m' refs,
+      traverse_objects_o f fuel tr m = Some (rename_dict_o f tr, m', refs) /\
+      NoDup refs /\
+      (forall x, In x refs <-> reachfo f tr m x) /\
+      map fst m' = map fst m /\
+      (forall x, reachfo f tr m x -> lookup m' x = option_map (rename_o f) (lookup m x)) /\
+      (forall x, ~ reachfo f tr m x -> lookup m' x = lookup m x).
+Proof. exact traverse_o_spec. Qed.
+
 (* (8) non-vacuity of (1)/(2): a document with two pages out of id order (so that the page-order pass runs), a
-   non-zero generation, bookmarks, an unreachable object and a dangling reference OUTSIDE the new range
-   (the document is not closed) meets the hypotheses; both passes do work. *)
+   non-zero generation, bookmarks, an unreachable object and a dangling reference (the document is not
+   closed) meets the hypotheses; both passes do work; the dangling `77 0 R` of the trailer is null afterwards. *)
 Theorem C10_example :
-  sorted_keys (d_objects (base ex_swap)) /\ fits 1 ex_swap /\ KnownClass 1 ex_swap = false /\
+  sorted_keys (d_objects (base ex_swap)) /\ fits 1 ex_swap /\
   ~ closed (d_trailer (base ex_swap)) (d_objects (base ex_swap)) /\
+  dict_get (d_trailer (base ex_swap)) (bs "Far") = Some (ORef 77 0) /\
   page_iter (base ex_swap) = [(8,1); (3,0)]%N /\
   exists d', renumber_objects_with 1 ex_swap = Done d' /\
     map fst (d_objects (base d')) = [(1,0); (2,0); (3,0); (4,0); (5,1)]%N /\
     page_iter (base d') = [(3,0); (5,1)]%N /\
     bm_targets d' = [(3,0); (5,1); (5,1)]%N /\
-    lookup (d_objects (base d')) (77,0)%N = None /\
+    dict_get (d_trailer (base d')) (bs "Far") = Some ONull /\
     d_max_id (base d') = 5%N.
 Proof. exact ex_swap_main. Qed.
 
@@ -173,8 +224,11 @@ Print Assumptions C10_renumber_objects.
 Print Assumptions C10_fits_necessary.
 Print Assumptions C10_KnownClass_spec.
 Print Assumptions C10_closed_outside_class.
-Print Assumptions C10_KnownClass_witness.
+Print Assumptions C10_dangling_v1_refuted.
+Print Assumptions C10_dangling_repaired.
+Print Assumptions C10_dangling_bookmark_v1_refuted.
 Print Assumptions C10_traverse_once.
+Print Assumptions C10_traverse_once_o.
 Print Assumptions C10_example.
 Print Assumptions C10_bookmarks_v0_refuted.
 Print Assumptions C10_page_twice_v0_refuted.
